@@ -461,6 +461,9 @@ class _Remap:
     def check(self, cond, rule, inst, *a, **k):
         return self.R.check(cond, 'M5', inst, *a, **k)
 
+    def form(self, cond, rule, inst, *a, **k):
+        return self.R.form(cond, 'M5', inst, *a, **k)
+
     def used(self, *f):
         self.R.used(*f)
 
